@@ -46,6 +46,9 @@ func (in *instrumenter) visibleCall(call *ast.CallExpr) bool {
 			}
 		}
 	case *ast.Ident:
+		if fun.Name == "verifYield" {
+			return true // an explicit scheduling point of the harness
+		}
 		if fun.Name == "close" {
 			if _, ok := in.info.Uses[fun].(*types.Builtin); ok {
 				return true
